@@ -41,6 +41,14 @@ type FailFile struct {
 	Violation Violation       `json:"violation"`
 	Plan      json.RawMessage `json:"plan"`
 	Crash     bool            `json:"crash,omitempty"` // written before an event: the process died while serving it
+
+	// how this worker process got here: the whole sequence of plans it executed
+	// can be regenerated from these (history replay, used when the violation
+	// depends on state earlier runs of the same process left behind)
+	WorkerSeed uint64 `json:"worker_seed,omitempty"`
+	Checks     string `json:"checks,omitempty"`
+	RunIndex   uint64 `json:"run_index,omitempty"`
+	History    bool   `json:"history,omitempty"`
 }
 
 // Stats are accumulated per worker process and written to VERIF_OUT.
@@ -62,12 +70,15 @@ type Stats struct {
 }
 
 var (
-	mu       sync.Mutex
-	stats    = Stats{Counters: map[string]uint64{}}
-	distinct = map[uint64]struct{}{}
-	firstSig string
-	curSeed  uint64
-	maxDist  = 400000
+	mu         sync.Mutex
+	stats      = Stats{Counters: map[string]uint64{}}
+	distinct   = map[uint64]struct{}{}
+	firstSig   string
+	curSeed    uint64
+	workerSeed uint64
+	checksStr  string
+	history    bool
+	maxDist    = 400000
 )
 
 // Prop returns the property id this process decides (VERIF_PROP).
@@ -138,12 +149,17 @@ func Report(t interface {
 	}
 	same := firstSig == sig
 	seed := curSeed
+	runIdx := stats.Runs
+	if history && !stats.ReplayFound {
+		stats.ReplayFound, stats.ReplaySig = true, sig
+		fmt.Printf("REPLAY-RESULT signature=%s (history replay, run %d)\nREPLAY-DETAIL %s\n", sig, runIdx, v.Detail)
+	}
 	mu.Unlock()
 	if !same {
 		return
 	}
 	pb, _ := json.Marshal(plan)
-	ff := FailFile{Property: v.Property, World: world, Seed: seed, Signature: sig, Violation: *v, Plan: pb}
+	ff := FailFile{Property: v.Property, World: world, Seed: seed, Signature: sig, Violation: *v, Plan: pb, WorkerSeed: workerSeed, Checks: checksStr, RunIndex: runIdx}
 	if p := os.Getenv("VERIF_FAIL"); p != "" {
 		b, _ := json.MarshalIndent(ff, "", " ")
 		_ = os.WriteFile(p, b, 0o644)
@@ -226,6 +242,13 @@ func Drive(t *testing.T, world string, prop func(*testing.T, *rapid.T), replay f
 	shrink := os.Getenv("VERIF_SHRINK")
 	if shrink == "" {
 		shrink = "20s"
+	}
+	mu.Lock()
+	workerSeed, checksStr = base, checks
+	history = os.Getenv("VERIF_HISTORY") != ""
+	mu.Unlock()
+	if history {
+		shrink = "1ms" // regenerate the same sequence of plans, stop at the first violation, do not shrink
 	}
 	_ = flag.Set("rapid.checks", checks)
 	_ = flag.Set("rapid.shrinktime", shrink)
